@@ -14,6 +14,33 @@ variable {S : Sem}
 @[simp] theorem Live.withRS_joinIdx (l : Live S.V) (r : RS S.V) : (l.withRS r).joinIdx = l.joinIdx := rfl
 @[simp] theorem Live.withRS_out (l : Live S.V) (r : RS S.V) : (l.withRS r).out = l.out := rfl
 
+section keepCur
+variable {α : Type}
+@[simp] theorem keepCurOnError_snd (l0 : Live S.V) (r : NRes S α) : (keepCurOnError l0 r).2 = r.2 := by
+  unfold keepCurOnError; split <;> simp_all
+@[simp] theorem keepCurOnError_scopes (l0 : Live S.V) (r : NRes S α) : (keepCurOnError l0 r).1.scopes = r.1.scopes := by
+  unfold keepCurOnError; split <;> simp_all
+@[simp] theorem keepCurOnError_used (l0 : Live S.V) (r : NRes S α) : (keepCurOnError l0 r).1.used = r.1.used := by
+  unfold keepCurOnError; split <;> simp_all
+@[simp] theorem keepCurOnError_vars (l0 : Live S.V) (r : NRes S α) : (keepCurOnError l0 r).1.vars = r.1.vars := by
+  unfold keepCurOnError; split <;> simp_all
+@[simp] theorem keepCurOnError_hooks (l0 : Live S.V) (r : NRes S α) : (keepCurOnError l0 r).1.hooks = r.1.hooks := by
+  unfold keepCurOnError; split <;> simp_all
+@[simp] theorem keepCurOnError_log (l0 : Live S.V) (r : NRes S α) : (keepCurOnError l0 r).1.log = r.1.log := by
+  unfold keepCurOnError; split <;> simp_all
+@[simp] theorem keepCurOnError_joinIdx (l0 : Live S.V) (r : NRes S α) : (keepCurOnError l0 r).1.joinIdx = r.1.joinIdx := by
+  unfold keepCurOnError; split <;> simp_all
+@[simp] theorem keepCurOnError_out (l0 : Live S.V) (r : NRes S α) : (keepCurOnError l0 r).1.out = r.1.out := by
+  unfold keepCurOnError; split <;> simp_all
+theorem keepCurOnError_ok (l0 : Live S.V) (r : NRes S α) (l' : Live S.V) (o : α) (h : r = (l', .ok o)) :
+    keepCurOnError l0 r = (l', .ok o) := by subst h; rfl
+theorem keepCurOnError_of_ok (l0 : Live S.V) (r : NRes S α) (l' : Live S.V) (o : α) (h : keepCurOnError l0 r = (l', .ok o)) :
+    r = (l', .ok o) := by
+  unfold keepCurOnError at h; split at h
+  · cases h
+  · exact h
+end keepCur
+
 /-- the fields navigation is not allowed to touch -/
 structure SameFrame (a b : Live S.V) : Prop where
   scopes : a.scopes = b.scopes
@@ -111,7 +138,9 @@ theorem goto_frame (c : ECfg S) : ∀ (fuel : Nat) (spec : String) (l : Live S.V
   | succ fuel ih =>
     intro spec l
     have hbody : ∀ pid l, SameFrame (gotoBody c (goto c fuel) pid l).1 l := by
-      intro pid l; unfold gotoBody; exact gotoLoop_frame c _ ih _ _ _ _ _ _
+      intro pid l; unfold gotoBody
+      have := gotoLoop_frame c _ ih (c.story.passages.length + 1) [] pid [] [] l
+      exact ⟨by simpa using this.scopes, by simpa using this.used⟩
     unfold goto
     split
     · exact .refl _
